@@ -98,8 +98,21 @@ def gen_history(rng):
     hist = []
     c = {}
     sid = 0
+    open_q = []
+    qid = 0
     for _ in range(rng.choice([3, 5, 8, 12])):
         r = rng.random()
+        # a call resolves at the moment it is made: calls that are suspended while definitions change
+        if rng.random() < 0.2:
+            qid += 1
+            nm = rng.choice(NAMES)
+            ar = rng.choice([1, 1, 2])
+            hist.append(('start', qid, nm, [V('S%d_%d' % (qid, i)) for i in range(ar)]))
+            hist.append(('next', qid))
+            open_q.append(qid)
+            c['suspended_calls'] = c.get('suspended_calls', 0) + 1
+        elif open_q and rng.random() < 0.3:
+            hist.append(('next', rng.choice(open_q)))
         if r < 0.45:
             sid += 1
             cl, has_cut = gen_script(rng, sid)
@@ -139,6 +152,10 @@ def gen_history(rng):
             c['clears'] = c.get('clears', 0) + 1
         hist.append(('dump', PROBES))
         c['probe_sets_compared'] = c.get('probe_sets_compared', 0) + 1
+    for q in open_q:
+        for _ in range(6):
+            hist.append(('next', q))
+        hist.append(('close', q))
     return hist, c
 
 
@@ -193,7 +210,7 @@ def judge(ctx, hist, c):
     r['nt'] = two > 0
     if r['nt']:
         r['sample'] = {'history': [short(s)[:160] for s in hist if s[0] != 'dump'][:8],
-                       'final_probe_answers': {k: v for k, v in d['obs'][-1].items() if v}}
+                       'final_probe_answers': {k: v for k, v in [o for o in d['obs'] if isinstance(o, dict)][-1].items() if v}}
     return r
 
 
